@@ -187,7 +187,7 @@ func Sin(d Number) Number {
 			Real:    d.Real,
 			E1mag:   d.E1mag,
 			E2mag:   d.E2mag,
-			E1E2mag: -d.Real,
+			E1E2mag: zeroE1E2(d, -d.Real),
 		}
 	}
 	fn := math.Sin(d.Real)
@@ -230,7 +230,7 @@ func Tan(d Number) Number {
 			Real:    d.Real,
 			E1mag:   d.E1mag,
 			E2mag:   d.E2mag,
-			E1E2mag: d.Real,
+			E1E2mag: zeroE1E2(d, d.Real),
 		}
 	}
 	fn := math.Tan(d.Real)
@@ -256,7 +256,7 @@ func Asin(d Number) Number {
 			Real:    d.Real,
 			E1mag:   d.E1mag,
 			E2mag:   d.E2mag,
-			E1E2mag: d.Real,
+			E1E2mag: zeroE1E2(d, d.Real),
 		}
 	} else if m := math.Abs(d.Real); m >= 1 {
 		if m == 1 {
@@ -332,7 +332,7 @@ func Atan(d Number) Number {
 			Real:    d.Real,
 			E1mag:   d.E1mag,
 			E2mag:   d.E2mag,
-			E1E2mag: -d.Real,
+			E1E2mag: zeroE1E2(d, -d.Real),
 		}
 	}
 	fn := math.Atan(d.Real)
